@@ -164,6 +164,26 @@ def _rename_top(node2, inner):
     return (node2[0], inner) + tuple(ren(x) for x in node2[2:])
 
 
+def _history(env, prog, used, eng):
+    """Earlier history in the same engines: equal-but-not-identical trees whose leaves (same names, same columns) were
+    declared with other bounds - a leaf re-created after its content changed compares equal to the old one.  Their
+    metadata is read so that anything remembered per *equal* relation is remembered before the tree under test exists."""
+    for dlo, dhi in ((0, 0),):
+        for name in used:
+            if name in SPECIAL:
+                env.add_special_leaf(name, SPECIAL[name][0], eng, SPECIAL[name][1])
+            else:
+                add_abstract_leaf(env, name, LEAVES[name], eng, None, min_rows=dlo, max_rows=dhi)
+        try:
+            d = build(prog, env)
+            _ = (d.min_rows, d.max_rows, d.is_trivial, d.is_join_identity, d.columns)
+        except Exception:  # noqa: BLE001 - the earlier tree is not the subject
+            pass
+        env.metadata = None
+        env.leaves.clear()
+        env.tables.clear()
+
+
 def run_shape(shape, tier):
     if shape.get("processor"):
         return run_processor_shape(shape)
@@ -177,6 +197,8 @@ def run_shape(shape, tier):
     def h(ctx):
         env = Env(symbolic=True)
         env.count_mode = True
+        templates.declare(ctx, env, shape["params"], shape["cons"])
+        _history(env, prog, used, eng)
         for name in used:
             if name in SPECIAL:
                 env.add_special_leaf(name, SPECIAL[name][0], eng, SPECIAL[name][1])
@@ -196,7 +218,6 @@ def run_shape(shape, tier):
             if hi_val is not None:
                 ctx.assume(cnt <= hi.t)
             add_abstract_leaf(env, name, cols, eng, tab, min_rows=lo, max_rows=hi_val)
-        templates.declare(ctx, env, shape["params"], shape["cons"])
         try:
             rel = build(prog, env)
         except Exception as e:  # noqa: BLE001
@@ -267,6 +288,7 @@ def concrete_check(prog, eng, rows, decl, bind):
     env.bind = dict(bind)
     used = sorted(_leaves_in(prog, set()))
     leafrows = {}
+    _history(env, prog, used, eng)
     for name in used:
         if name in SPECIAL:
             env.add_special_leaf(name, SPECIAL[name][0], eng, SPECIAL[name][1])
